@@ -42,6 +42,9 @@ inductive Act
   | restore (ent : Nat)                     -- entity._crashed = False
   | addHook (kind hook : Nat)               -- `add_completion_hook` on the most recently created event of this kind
   | metric (ent : Nat) (abs : Bool) (v : Int) -- entity.level = v  /  entity.level = (entity.level or 0) + v
+  | relay (tgt kind delay limit : Nat) (daemon : Bool)
+      -- hop counter in the event's metadata: `h = event.get_context("hops") or 0; if h < limit:
+      -- event.add_context("hops", h + 1)` (stamps the delivered event) and forward a fresh event carrying `hops = h + 1`
 
 
 inductive Term
@@ -86,6 +89,7 @@ structure Proc where
   send : Val := .none        -- `_send_value` of the pending continuation
   started : Bool := false
   ev : Nat := 0              -- creation index of the originating event (whose `on_complete` list the process shares)
+  hops : Nat := 0            -- `hops` entry of the originating event's metadata when it was delivered
 
 /-- observable log entries (what the harness entities write down) -/
 inductive Obs
@@ -111,6 +115,9 @@ structure PS where
   late : List (Nat × Nat) := []              -- pid ↦ hook added to the originating event while the process is in flight
   lateAtt : List Nat := []                   -- every hook ever added in flight (never shrinks)
   level : List (Nat × Int) := []             -- entity ↦ its `level` attribute (absent = `None`)
+  hopsOf : List (Nat × Nat) := []            -- creation tag ↦ `hops` metadata an event was created with (absent = none);
+                                             --   a copy re-created by reset() has the tag, hence the hops, of the original
+  cur : Nat := 0                             -- `hops` of the event whose handler / process is running
 
 def futGet (fs : List Fut) (f : Nat) : Fut := fs.getD f ({} : Fut)
 def futSet (fs : List Fut) (f : Nat) (x : Fut) : List Fut :=
@@ -194,6 +201,8 @@ def addHookTo (e : Eff) (id hook : Nat) : Eff :=
   | some pid => { e with ps := { e.ps with late := e.ps.late ++ [(pid, hook)], lateAtt := hook :: e.ps.lateAtt } }
   | none => { e with ps := { e.ps with hookOf := e.ps.hookOf ++ [(id, hook)] } }
 
+def hopsAt (l : List (Nat × Nat)) (tag : Nat) : Nat := ((l.find? (fun p => p.1 == tag)).map (·.2)).getD 0
+
 def levelOf (l : List (Nat × Int)) (x : Nat) : Option Int := (l.find? (fun p => p.1 == x)).map (·.2)
 
 def setLevel (l : List (Nat × Int)) (x : Nat) (abs : Bool) (v : Int) : List (Nat × Int) :=
@@ -228,6 +237,13 @@ def runAct (now : Nat) (e : Eff) : Act → Eff
     | some (_, id) => addHookTo e id hook
     | none => e
   | .metric x abs v => { e with ps := { e.ps with level := setLevel e.ps.level x abs v } }
+  | .relay tgt kind delay limit daemon =>
+    -- (stamping the delivered event changes nothing the engine looks at again: what was scheduled is
+    -- what reset() replays)
+    if e.ps.cur < limit then
+      let e1 := e.push ⟨now + delay, tgt, kind, daemon, 0, 0⟩ 0
+      { e1 with ps := { e1.ps with hopsOf := (e1.ps.tagc, e.ps.cur + 1) :: e1.ps.hopsOf } }
+    else e
   | .fresh f => { e with ps := { e.ps with futs := futSet e.ps.futs f ({} : Fut) } }
   | .anyOf f gs =>
     let e0 := { e with ps := { e.ps with futs := futSet e.ps.futs f ({} : Fut) } }
@@ -253,7 +269,7 @@ def runSegment (now : Nat) (e : Eff) (pid : Nat) (tag : Nat := 0) : Eff :=
     | seg :: rest =>
       let e0 := if p.started then addObs e (.resume now pid p.send tag) else e
       let p := { p with started := true, send := .none }
-      let e0 := { e0 with ps := { e0.ps with procs := e0.ps.procs.set pid p } }
+      let e0 := { e0 with ps := { e0.ps with procs := e0.ps.procs.set pid p, cur := p.hops } }
       let e1 := seg.acts.foldl (runAct now) e0
       let setProc (x : Eff) (q : Proc) : Eff := { x with ps := { x.ps with procs := x.ps.procs.set pid q } }
       match seg.term with
@@ -288,7 +304,8 @@ def procHandle (ps : PS) (now : Nat) (ev : Ev) : Out PS :=
       let e1 := addObs e0 (.start now ev.target ev.kind ev.tag)
       let pid := e1.ps.procs.length
       let p : Proc :=
-        { ent := ev.target, kind := ev.kind, daemon := ev.daemon, segs := d.segs, hooks := hooks, ev := ev.id }
+        { ent := ev.target, kind := ev.kind, daemon := ev.daemon, segs := d.segs, hooks := hooks, ev := ev.id,
+          hops := hopsAt ps.hopsOf ev.tag }
       -- (`_start_process` also creates a first continuation that is never pushed; it consumes a
       -- creation index in the code but has no effect on relative order, so the model skips it)
       let e2 := { e1 with ps := { e1.ps with procs := e1.ps.procs ++ [p] } }
